@@ -19,6 +19,7 @@ package muxrun
 //	d<i>     the server answers call i (whole frame); ends when the receive loop is blocked again and call i is parked or returned
 //	c<i>     cancel the context of call i (only calls in their select); ends when it has returned
 //	a        report cap-1-AvailableStreams()
+//	f        report the number of StreamFinished call-backs so far (one per id released)
 //	K        Conn.Close(); ends when it has returned and every call in its select has returned
 //	Z        the server closes the transport: serve → closeWithError(err); ends when the connection is marked closed
 //	e        (after Z) ends when closeWithError is through (error handler called) and every call in its select returned
@@ -34,6 +35,7 @@ import (
 	"strconv"
 	"strings"
 	"sync"
+	"sync/atomic"
 	"time"
 
 	"github.com/gocql/gocql"
@@ -46,6 +48,29 @@ var ExHangDump string
 var exHung bool
 
 var exWatch = 16 * time.Second
+
+
+// exWaitFor blocks until cond holds. A hang is declared only when BOTH the watchdog time has passed AND this goroutine
+// itself has seen exTicks expirations of its 300 µs poll timer: on a machine so overloaded that the process hardly
+// runs, the poll timers (and the timers of the code under test) do not expire either, so starvation is not a hang.
+func exWaitFor(cond func() bool, notify <-chan struct{}, what string) {
+	start := time.Now()
+	ticks := 0
+	for !cond() {
+		select {
+		case <-notify:
+		case <-time.After(300 * time.Microsecond):
+			ticks++
+		}
+		if ticks >= exTicks && time.Since(start) > exWatch && !cond() {
+			buf := make([]byte, 1<<20)
+			n := runtime.Stack(buf, true)
+			panic(jrHang{what, string(buf[:n])})
+		}
+	}
+}
+
+const exTicks = 12000
 
 type exKey struct{}
 
@@ -70,6 +95,7 @@ type exRun struct {
 	tr      *jrTransport
 	conn    *gocql.VerifC06Conn
 	freeAll chan struct{}
+	fins    int32 // StreamFinished call-backs so far
 }
 
 func (c *exCall) park(p byte, bit int) {
@@ -127,6 +153,7 @@ func (exObserver) StreamContext(ctx context.Context) gocql.StreamObserverContext
 func (x *exObsCtx) StreamStarted(gocql.ObservedStream)   { x.c.park('R', 2) }
 func (x *exObsCtx) StreamAbandoned(gocql.ObservedStream) {}
 func (x *exObsCtx) StreamFinished(gocql.ObservedStream) {
+	atomic.AddInt32(&x.c.run.fins, 1)
 	if x.c.run.conn.Closed() {
 		return
 	}
@@ -175,20 +202,7 @@ func RunExec(line string) (ans string) {
 	conn.SetStreamObserver(exObserver{})
 	cap := conn.Cap()
 
-	waitFor := func(cond func() bool, what string) {
-		start := time.Now()
-		for !cond() {
-			select {
-			case <-tr.notify:
-			case <-time.After(300 * time.Microsecond):
-			}
-			if time.Since(start) > exWatch && !cond() {
-				buf := make([]byte, 1<<20)
-				n := runtime.Stack(buf, true)
-				panic(jrHang{what, string(buf[:n])})
-			}
-		}
-	}
+	waitFor := func(cond func() bool, what string) { exWaitFor(cond, tr.notify, what) }
 	var calls []*exCall
 	freed := false
 	defer func() {
@@ -316,6 +330,11 @@ func RunExec(line string) (ans string) {
 				return "bad-op"
 			}
 			out = append(out, fmt.Sprintf("a=%d", cap-1-conn.Avail()))
+		case 'f':
+			if closed {
+				return "bad-op"
+			}
+			out = append(out, fmt.Sprintf("f=%d", atomic.LoadInt32(&run.fins)))
 		case 'K':
 			if closed {
 				return "bad-op"
@@ -534,6 +553,32 @@ func GenExec(r *vh.Rng) (line, class string) {
 			start(randFate(), randMask()&3)
 		}
 	}
+	if len(calls) == 0 && r.Intn(6) == 0 {
+		// focused: many callers give up after their request was written, ALL of them are answered late: every id must come
+		// back, each with exactly one StreamFinished (whichever arm of recv's final select disposes of the response)
+		k := 8 + r.Intn(25)
+		for j := 0; j < k; j++ {
+			start('o', 0)
+		}
+		for j := 0; j < k; j++ {
+			if r.Intn(8) != 0 {
+				steps = append(steps, fmt.Sprintf("c%d", j+1))
+				calls[j].stage = 'A'
+				feats["gave-up"] = true
+			}
+		}
+		steps = append(steps, "a")
+		for guard := 0; guard < 100; guard++ {
+			i := pick(func(c *cs) bool { return c.stage == 'W' || c.stage == 'A' })
+			if i < 0 {
+				break
+			}
+			answer(i)
+		}
+		steps = append(steps, "a", "f")
+		feats["many-late-answers"] = true
+		n = len(calls)
+	}
 	if len(calls) == 0 && r.Intn(3) == 0 {
 		// focused: the server closes the transport while several calls are registered but unwritten (closeWithError waits in
 		// its delivery loop); some of them leave (build failure / write), new calls arrive, then the others are let go
@@ -602,7 +647,7 @@ func GenExec(r *vh.Rng) (line, class string) {
 				feats["gave-up"] = true
 			}
 		case p < 90 && !closed:
-			steps = append(steps, "a")
+			steps = append(steps, []string{"a", "a", "f"}[r.Intn(3)])
 		case p < 95 && !closed && len(calls) > 0:
 			if r.Intn(2) == 0 {
 				steps = append(steps, "K")
@@ -664,10 +709,10 @@ func GenExec(r *vh.Rng) (line, class string) {
 				steps = append(steps, "a")
 			}
 		}
-		steps = append(steps, "a")
+		steps = append(steps, "a", "f")
 	}
 	class = "ex"
-	for _, k := range []string{"closer-waits-for-unwritten-call", "close-with-call-registered-unwritten", "let-go-while-closing", "calls-started-while-another-releases",
+	for _, k := range []string{"many-late-answers", "closer-waits-for-unwritten-call", "close-with-call-registered-unwritten", "let-go-while-closing", "calls-started-while-another-releases",
 		"started-after-close", "late-answer", "server-close", "conn-close", "gave-up"} {
 		if feats[k] {
 			class += "/" + k
